@@ -74,7 +74,7 @@ func loadEngine(repo string) (*Engine, error) {
 	if len(errs) > 0 {
 		return nil, fmt.Errorf("package errors:\n%s", strings.Join(errs, "\n"))
 	}
-	prog, spkgs := ssautil.AllPackages(pkgs, ssa.InstantiateGenerics)
+	prog, spkgs := ssautil.AllPackages(pkgs, ssa.InstantiateGenerics|ssa.GlobalDebug)
 	e := &Engine{
 		repo: repo, prog: prog, pkgs: map[string]*PkgInfo{}, byPath: map[string]*PkgInfo{},
 		allTypes: map[string]*types.Package{}, funcSpecs: map[string]*FuncSpec{}, specFns: map[string]*SpecFn{},
